@@ -909,6 +909,41 @@ def _native_irregular(tier="quick", seed=0):
         finally:
             shutil.rmtree(d, ignore_errors=True)
         rec("C16.native[%s].refusals" % dname, bad)
+        # 9. equivalent spellings of an internal Target (absolute, "./", a detour through the parent), one relationship at a time;
+        #    Override entries for parts that do not exist; an external relationship with an odd target
+        import posixpath
+
+        bad = None
+        for i, (n, d) in enumerate(members):
+            if not n.endswith(".rels"):
+                continue
+            basedir = "/" if n == "_rels/.rels" else "/" + posixpath.dirname(posixpath.dirname(n))
+            for r in re.findall(rb'<Relationship [^>]*?/>', d):
+                if b'TargetMode="External"' in r:
+                    continue
+                tgt = re.search(rb'Target="([^"]*)"', r).group(1).decode()
+                absolute = posixpath.normpath(posixpath.join(basedir, tgt))
+                rid = re.search(rb'Id="([^"]*)"', r).group(1).decode()
+                forms = [absolute, "./" + tgt if not tgt.startswith(("/", ".")) else None,
+                         posixpath.join(posixpath.dirname(tgt), "..", posixpath.basename(posixpath.dirname(absolute)), posixpath.basename(tgt)) if posixpath.dirname(absolute) != "/" and not tgt.startswith("/") else None]
+                for f in forms:
+                    if f is None or f == tgt:
+                        continue
+                    m2 = list(members)
+                    m2[i] = (n, d.replace(r, r.replace(b'Target="%s"' % tgt.encode(), b'Target="%s"' % f.encode())))
+                    bad = bad or opens(m2, "%s: %s in %s written as Target=%r instead of %r" % (dname, rid, n, f, tgt), base)
+        rec("C16.native[%s].equivalent_target_spellings" % dname, bad)
+        bad = None
+        m2 = list(members)
+        m2[ci] = (members[ci][0], ct.replace(b"</Types>", b'<Override PartName="/ppt/slides/slide77.xml" ContentType="application/vnd.openxmlformats-officedocument.presentationml.slide+xml"/>'
+                                                           b'<Override PartName="/nowhere/x.bin" ContentType="application/x-thing"/></Types>'))
+        bad = bad or opens(m2, "%s: Override entries for parts that do not exist" % dname, base)
+        pi = [i for i, (n, _) in enumerate(members) if n == "ppt/_rels/presentation.xml.rels"][0]
+        odd = b'<Relationship Id="rId9999" Type="http://schemas.openxmlformats.org/officeDocument/2006/relationships/hyperlink" Target="file:///C:/x y/%C3%A9.txt#frag" TargetMode="External"/></Relationships>'
+        m2 = list(members)
+        m2[pi] = (members[pi][0], members[pi][1].replace(b"</Relationships>", odd))
+        bad = bad or opens(m2, "%s: external relationship with an odd target on the presentation part" % dname, base)
+        rec("C16.native[%s].phantom_overrides_and_odd_external_target" % dname, bad)
         # 8. pairs (thorough): dangling target x case flip, no-core x extra members
         if tier == "thorough":
             bad = None
